@@ -1,1 +1,37 @@
-//! (to be filled)
+//! E3: deviation-bounded exploration of environment answers. A run is described by the set of
+//! choice points at which the environment departs from its default answer, and by which alternative
+//! it gives there. All runs with 0, then 1, ..., then `bound` deviations are enumerated (iterated
+//! bounding: the first counterexample has the fewest deviations).
+
+/// one deviation: at choice point `point` answer alternative `alt` (1-based; 0 is the default)
+pub type Deviation = (usize, usize);
+
+/// all deviation sets with exactly `k` deviations over `points` choice points with `alts`
+/// non-default alternatives each, in lexicographic order
+pub fn deviation_sets(points: usize, alts: usize, k: usize) -> Vec<Vec<Deviation>> {
+    fn rec(points: usize, alts: usize, k: usize, start: usize, cur: &mut Vec<Deviation>, out: &mut Vec<Vec<Deviation>>) {
+        if cur.len() == k {
+            out.push(cur.clone());
+            return;
+        }
+        for p in start..points {
+            for a in 1..=alts {
+                cur.push((p, a));
+                rec(points, alts, k, p + 1, cur, out);
+                cur.pop();
+            }
+        }
+    }
+    let mut out = vec![];
+    rec(points, alts, k, 0, &mut vec![], &mut out);
+    out
+}
+
+/// all deviation sets with at most `bound` deviations, fewest first
+pub fn up_to(points: usize, alts: usize, bound: usize) -> Vec<Vec<Deviation>> {
+    let mut out = vec![];
+    for k in 0..=bound {
+        out.extend(deviation_sets(points, alts, k));
+    }
+    out
+}
